@@ -29,6 +29,8 @@ def case_st(draw):
         c["cmd"] = draw(st.sampled_from(BASIC_CMDS))
         c["prog"] = draw(gen_basic.program(max_lines=draw(st.sampled_from([1, 5, 40]))))
         c["repeat"] = draw(st.sampled_from([1, 1, 20, 200]))
+        # pad the listing (with REM lines) to an exact length around the 4096-byte stdio buffer
+        c["target_len"] = draw(st.sampled_from([None, None, 4095, 4096, 4097, 4098, 8192, 8193, 12289, 16385]))
         c["listo"] = draw(st.integers(0, 7))
     return c
 
@@ -191,6 +193,28 @@ class C11(CheckBase):
         prog = case["prog"]
         lines = [(n, bytes(b)) for n, b in prog["lines"]] * case["repeat"]
         lines = lines[:4000]
+        tgt = case.get("target_len")
+        if tgt and case["cmd"] in ("listing", "listing-stdin"):
+            listo = case["listo"]
+            try:
+                cur = len(rb.listing(prog["dialect"], listo, lines)[0])
+            except rb.Reject:
+                cur = None
+            if cur is not None:
+                while cur > tgt - 20 and lines:
+                    lines.pop()
+                    cur = len(rb.listing(prog["dialect"], listo, lines)[0])
+                # each padding line costs 5 (number) + (1 if listo&1) + indent + 3 ("REM") + text + 1 (newline)
+                indent_probe = len(rb.listing(prog["dialect"], listo, lines + [(1, b"\xF4")])[0]) - cur
+                while tgt - cur > 0:
+                    room = tgt - cur
+                    if room < indent_probe:
+                        break
+                    text = min(200, room - indent_probe)
+                    if 0 < room - indent_probe - text < indent_probe:
+                        text = max(0, text - indent_probe)
+                    lines.append((1, b"\xF4" + b"x" * text))
+                    cur += indent_probe + text
         data = rb.serialise(prog["dialect"], lines)
         p = sb.file("p.bbc", data)
         d = prog["dialect"]
